@@ -9,6 +9,7 @@ type OracleGenOpts struct {
 	ValsetChanges        bool
 	Restarts             bool
 	CheckTx              bool
+	HugePrices           bool // hostile supermajority values (C11): 1e29, negative, non-numeric, empty
 }
 
 // GenOraclePlan generates price submissions placed at every offset of the round windows.
@@ -20,7 +21,10 @@ func GenOraclePlan(p *PRNG, cfg Config, o OracleGenOpts) Plan {
 	var plan Plan
 	nRefs := cfg.NOps + cfg.NStakers
 	lz := int64(1)
-	values := []string{"100", "101", "250", "99999", "1", "0", "123456789012345678901234567890"}
+	values := []string{"100", "101", "250", "99999", "1", "0", "7"}
+	if o.HugePrices {
+		values = append(values, "18446744073709551616", "123456789012345678901234567890", "-5", "abc", "")
+	}
 	truth := map[string]string{}
 	for bi := 0; bi < nb; bi++ {
 		b := Block{DtNs: cfg.BlockSec * 1e9, Prop: p.Intn(8)}
@@ -121,4 +125,24 @@ func GenOraclePlan(p *PRNG, cfg Config, o OracleGenOpts) Plan {
 		plan.Blocks = append(plan.Blocks, b)
 	}
 	return plan
+}
+
+func init() {
+	// C11: validators (a supermajority) agreeing on hostile values, followed by the epoch ends that consume them
+	extraHostile["oracle"] = func(p *PRNG, cfg Config, plan Plan) Plan {
+		op := GenOraclePlan(NewPRNG(p.Uint64()), cfg, OracleGenOpts{MinBlocks: len(plan.Blocks), MaxBlocks: len(plan.Blocks), Hostile: true, HugePrices: cfg.HugeAmounts})
+		hostile := []string{"0", "1", "1000000"}
+		if cfg.HugeAmounts {
+			hostile = append(hostile, "18446744073709551616", "123456789012345678901234567890", "-5", "abc", "")
+		}
+		for i := range plan.Blocks {
+			if i < len(op.Blocks) {
+				plan.Blocks[i].Ops = append(plan.Blocks[i].Ops, op.Blocks[i].Ops...)
+			}
+			if p.Chance(1, 5) {
+				plan.Blocks[i].Ops = append(plan.Blocks[i].Ops, PriceRound(cfg.NOps, 1+p.Intn(len(cfg.Assets)), hostile[p.Intn(len(hostile))])...)
+			}
+		}
+		return plan
+	}
 }
